@@ -19,7 +19,11 @@ use std::collections::{BTreeMap, HashSet};
 use std::io::Write;
 use std::panic::{AssertUnwindSafe, catch_unwind};
 
-type Val = OpaqueValue<RootedThread, Hole>;
+mod derive;
+mod json;
+mod strs;
+
+pub type Val = OpaqueValue<RootedThread, Hole>;
 
 // ---------------------------------------------------------------------------------------------
 // Gluon side
@@ -52,11 +56,74 @@ let list_foldl xs : Array Int -> Int = foldl (\a x -> a * 3 - x) 7 (list.of xs)
 let list_foldr xs : Array Int -> Int = foldr (\x a -> x - a * 3) 7 (list.of xs)
 let list_append xs ys : Array Int -> Array Int -> List Int = list.of xs <> list.of ys
 
-{ map_run, list_sort, list_filter_gt, list_filter_even, list_foldl, list_foldr, list_append }
+// ---- arrays and strings: one dispatcher each, results in a tagged type ----
+let string = import! std.string
+let char = import! std.char
+let { map } = import! std.functor
+let { show } = import! std.show
+let { compare } = import! std.cmp
+
+type R =
+    | RInt Int
+    | RBool Bool
+    | ROpt (Option Int)
+    | RStr String
+    | RBytes (Array Byte)
+    | RPair String String
+    | RArr (Array Int)
+
+let ord_int o =
+    match o with
+    | LT -> 0 - 1
+    | EQ -> 0
+    | GT -> 1
+
+let arr_op op xs ys i j : Int -> Array Int -> Array Int -> Int -> Int -> R =
+    if op == 0 then RInt (array.len xs)
+    else if op == 1 then RInt (array.index xs i)
+    else if op == 2 then RArr (array.append xs ys)
+    else if op == 3 then RArr (array.slice xs i j)
+    else if op == 4 then RInt (foldl (\a x -> a * 3 - x) 7 xs)
+    else if op == 5 then RInt (foldr (\x a -> x - a * 3) 7 xs)
+    else if op == 6 then RArr (map (\x -> x * 2 + 1) xs)
+    else if op == 7 then RBool (xs == ys)
+    else if op == 8 then RInt (ord_int (compare xs ys))
+    else RStr (show xs)
+
+let str_op op s t i j c : Int -> String -> String -> Int -> Int -> Char -> R =
+    if op == 0 then RInt (string.len s)
+    else if op == 1 then RBool (string.is_empty s)
+    else if op == 2 then RBool (string.is_char_boundary s i)
+    else if op == 3 then RBytes (string.as_bytes s)
+    else if op == 4 then
+        let (a, b) = string.split_at s i
+        RPair a b
+    else if op == 5 then RBool (string.contains s t)
+    else if op == 6 then RBool (string.starts_with s t)
+    else if op == 7 then RBool (string.ends_with s t)
+    else if op == 8 then ROpt (string.find s t)
+    else if op == 9 then ROpt (string.rfind s t)
+    else if op == 10 then RStr (string.trim s)
+    else if op == 11 then RStr (string.trim_start s)
+    else if op == 12 then RStr (string.trim_end s)
+    else if op == 13 then RStr (string.trim_start_matches s t)
+    else if op == 14 then RStr (string.trim_end_matches s t)
+    else if op == 15 then RStr (string.append s t)
+    else if op == 16 then RStr (string.append_char s c)
+    else if op == 17 then RStr (string.from_char c)
+    else if op == 18 then RStr (string.slice s i j)
+    else if op == 19 then RInt (char.to_int (string.char_at s i))
+    else if op == 20 then RBool (s == t)
+    else if op == 21 then RInt (ord_int (compare s t))
+    else RStr (show s)
+
+{ map_run, list_sort, list_filter_gt, list_filter_even, list_foldl, list_foldr, list_append, arr_op, str_op }
 "#;
 
-struct Vm {
-    vm: RootedThread,
+pub struct Vm {
+    pub vm: RootedThread,
+    pub arr_op: OwnedFunction<fn(i64, Vec<i64>, Vec<i64>, i64, i64) -> Val>,
+    pub str_op: OwnedFunction<fn(i64, String, String, i64, i64, char) -> Val>,
     map_run: OwnedFunction<fn(Vec<i64>) -> Val>,
     list_sort: OwnedFunction<fn(Vec<i64>) -> Val>,
     list_filter_gt: OwnedFunction<fn(i64, Vec<i64>) -> Val>,
@@ -89,6 +156,8 @@ impl Vm {
             list_foldl: g!("list_foldl"),
             list_foldr: g!("list_foldr"),
             list_append: g!("list_append"),
+            arr_op: g!("arr_op"),
+            str_op: g!("str_op"),
             vm,
         }
     }
@@ -185,11 +254,11 @@ fn render(v: &Val, sh: &Shape) -> String {
     s
 }
 
-fn err_line(e: &gluon::vm::Error) -> String {
+pub fn err_line(e: &gluon::vm::Error) -> String {
     format!("error {}", e.to_string().replace('\n', " | "))
 }
 
-fn ints(xs: &[i64]) -> String {
+pub fn ints(xs: &[i64]) -> String {
     xs.iter().map(|x| x.to_string()).collect::<Vec<_>>().join(",")
 }
 
@@ -210,12 +279,19 @@ enum Case {
     LFoldl(Vec<i64>),
     LFoldr(Vec<i64>),
     LAppend(Vec<i64>, Vec<i64>),
+    Arr(strs::ArrCase),
+    Str(strs::StrCase),
+    Derive(derive::DCase),
+    Json(json::JCase),
 }
 
 impl Case {
     fn family(&self) -> &'static str {
         match self {
             Case::Map(_) => "map",
+            Case::Arr(_) | Case::Str(_) => "array-string",
+            Case::Derive(_) => "derive",
+            Case::Json(_) => "json",
             _ => "list",
         }
     }
@@ -229,6 +305,10 @@ impl Case {
             Case::LFoldl(xs) => format!("lfoldl {}", ints(xs)),
             Case::LFoldr(xs) => format!("lfoldr {}", ints(xs)),
             Case::LAppend(xs, ys) => format!("lappend {} {}", ints(xs), ints(ys)),
+            Case::Arr(c) => c.line(),
+            Case::Str(c) => c.line(),
+            Case::Derive(c) => c.line(),
+            Case::Json(c) => c.line(),
         }
     }
     fn parse(line: &str) -> Option<Case> {
@@ -254,14 +334,55 @@ impl Case {
             "lfoldl" => Case::LFoldl(il(arg(0))),
             "lfoldr" => Case::LFoldr(il(arg(0))),
             "lappend" => Case::LAppend(il(arg(0)), il(arg(1))),
+            "arr" if rest.len() == 5 => Case::Arr(strs::ArrCase::parse(&rest)?),
+            "str" if rest.len() == 6 => Case::Str(strs::StrCase::parse(&rest)?),
+            "derive" if rest.len() == 4 => Case::Derive(derive::DCase::parse(&rest)?),
+            "json" if rest.len() == 1 => Case::Json(json::JCase::parse(&rest)?),
             _ => return None,
         })
+    }
+    /// smaller variants of the case (halves first, then single deletions)
+    fn shrinks(&self) -> Vec<Case> {
+        fn subs<T: Clone>(xs: &[T]) -> Vec<Vec<T>> {
+            let n = xs.len();
+            let mut v = vec![];
+            if n >= 4 {
+                v.push(xs[..n / 2].to_vec());
+                v.push(xs[n / 2..].to_vec());
+            }
+            for i in 0..n {
+                let mut y = xs.to_vec();
+                y.remove(i);
+                v.push(y);
+            }
+            v
+        }
+        match self {
+            Case::Map(ops) => subs(ops).into_iter().map(Case::Map).collect(),
+            Case::Sort(xs) => subs(xs).into_iter().map(Case::Sort).collect(),
+            Case::FilterGt(c, xs) => subs(xs).into_iter().map(|x| Case::FilterGt(*c, x)).collect(),
+            Case::FilterEven(xs) => subs(xs).into_iter().map(Case::FilterEven).collect(),
+            Case::LFoldl(xs) => subs(xs).into_iter().map(Case::LFoldl).collect(),
+            Case::LFoldr(xs) => subs(xs).into_iter().map(Case::LFoldr).collect(),
+            Case::LAppend(xs, ys) => {
+                let mut v: Vec<Case> = subs(xs).into_iter().map(|x| Case::LAppend(x, ys.clone())).collect();
+                v.extend(subs(ys).into_iter().map(|y| Case::LAppend(xs.clone(), y)));
+                v
+            }
+            Case::Arr(c) => c.shrinks().into_iter().map(Case::Arr).collect(),
+            Case::Str(c) => c.shrinks().into_iter().map(Case::Str).collect(),
+            Case::Derive(_) | Case::Json(_) => vec![],
+        }
     }
     fn nontrivial(&self) -> bool {
         match self {
             Case::Map(ops) => ops.iter().filter(|o| o.0 == 0).count() >= 2,
             Case::Sort(xs) | Case::FilterEven(xs) | Case::LFoldl(xs) | Case::LFoldr(xs) | Case::FilterGt(_, xs) => xs.len() >= 2,
             Case::LAppend(xs, ys) => xs.len() + ys.len() >= 2,
+            Case::Arr(c) => c.nontrivial(),
+            Case::Str(c) => c.nontrivial(),
+            Case::Derive(c) => c.nontrivial(),
+            Case::Json(c) => c.nontrivial(),
         }
     }
 }
@@ -277,6 +398,13 @@ fn map_shape() -> Shape {
 }
 
 fn run_impl(vm: &mut Vm, c: &Case) -> String {
+    match c {
+        Case::Arr(a) => return strs::run_arr(vm, a),
+        Case::Str(a) => return strs::run_str(vm, a),
+        Case::Derive(a) => return derive::run(vm, a),
+        Case::Json(a) => return json::run(vm, a),
+        _ => {}
+    }
     let li = Shape::List(Box::new(Shape::Int));
     let r = catch_unwind(AssertUnwindSafe(|| match c {
         Case::Map(ops) => {
@@ -289,6 +417,7 @@ fn run_impl(vm: &mut Vm, c: &Case) -> String {
         Case::LFoldl(xs) => vm.list_foldl.call(xs.clone()).map(|v| v.to_string()),
         Case::LFoldr(xs) => vm.list_foldr.call(xs.clone()).map(|v| v.to_string()),
         Case::LAppend(xs, ys) => vm.list_append.call(xs.clone(), ys.clone()).map(|v| render(&v, &li)),
+        Case::Arr(_) | Case::Str(_) | Case::Derive(_) | Case::Json(_) => unreachable!(),
     }));
     match r {
         Ok(Ok(s)) => s,
@@ -336,6 +465,20 @@ fn run_oracle(c: &Case) -> String {
             v.extend(ys);
             brack(&v)
         }
+        Case::Arr(c) => strs::oracle_arr(c),
+        Case::Str(c) => strs::oracle_str(c),
+        Case::Derive(c) => derive::oracle(c),
+        Case::Json(c) => json::oracle(c),
+    }
+}
+
+/// The property's own observable evaluated on the implementation's answer (no model involved):
+/// (key, description) of a failure.
+fn property_failure(c: &Case, impl_line: &str) -> Option<(String, String)> {
+    match c {
+        Case::Derive(d) => derive::property(d, impl_line),
+        Case::Json(j) => json::property(j, impl_line),
+        _ => None,
     }
 }
 
@@ -419,7 +562,7 @@ fn gen_map_ops(rng: &mut Rng, hist: &mut Hist, thorough: bool) -> Vec<(i64, i64,
         }
     }
     hist.add(&format!("map:keyrange{}", key_range));
-    hist.add(&format!("map:ops{}", if n == 0 { "0".into() } else if n < 10 { "1-9".into() } else if n < 50 { "10-49".into() } else { "50-200".into() }));
+    hist.add(&format!("map:ops{}", if n == 0 { "0" } else if n < 10 { "1-9" } else if n < 50 { "10-49" } else { "50-200" }));
     ops
 }
 
@@ -463,6 +606,35 @@ fn main() {
         return;
     }
 
+    // shrink mode: for each case line of the file on which implementation and Rust-std oracle
+    // disagree, greedily drop operations / elements while they still disagree
+    if let Some(path) = args.extra.get("shrink") {
+        for line in std::fs::read_to_string(path).expect("shrink file").lines() {
+            let mut c = match Case::parse(line) {
+                Some(c) => c,
+                None => continue,
+            };
+            let bad = |vm: &mut Vm, c: &Case| run_impl(vm, c) != run_oracle(c);
+            if bad(&mut vm, &c) {
+                let mut progress = true;
+                let mut budget = 3000;
+                while progress && budget > 0 {
+                    progress = false;
+                    for cand in c.shrinks() {
+                        budget -= 1;
+                        if bad(&mut vm, &cand) {
+                            c = cand;
+                            progress = true;
+                            break;
+                        }
+                    }
+                }
+            }
+            println!("shrunk\t{}\t{}\t{}", c.line(), run_impl(&mut vm, &c), run_oracle(&c));
+        }
+        return;
+    }
+
     let only: Option<String> = args.extra.get("family").cloned();
     let scale: u64 = if args.thorough() { 20 } else { 1 };
     let mut rng = Rng::new(args.seed);
@@ -487,6 +659,20 @@ fn main() {
         cases.push(Case::LFoldr(gen_small_ints(&mut rng)));
         cases.push(Case::LAppend(gen_ints(&mut rng, &mut hist), gen_ints(&mut rng, &mut hist)));
     }
+    for _ in 0..(400 * scale) {
+        let xs = gen_ints(&mut rng, &mut hist);
+        let ys = gen_ints(&mut rng, &mut hist);
+        cases.push(Case::Arr(strs::gen_arr_case(&mut rng, &mut hist, xs, ys)));
+    }
+    for _ in 0..(1500 * scale) {
+        cases.push(Case::Str(strs::gen_str_case(&mut rng, &mut hist)));
+    }
+    for _ in 0..(600 * scale) {
+        cases.push(Case::Derive(derive::gen_case(&mut rng, &mut hist)));
+    }
+    for _ in 0..(500 * scale) {
+        cases.push(Case::Json(json::gen_case(&mut rng, &mut hist)));
+    }
     if let Some(f) = &only {
         cases.retain(|c| c.family() == f);
     }
@@ -496,6 +682,7 @@ fn main() {
     let mut oracle_out = args.file("oracle_out.txt");
     let mut cases_f = args.file("cases.txt");
     let mut fam_f = args.file("families.txt");
+    let mut prop_f = args.file("property_failures.txt");
     let mut distinct = HashSet::new();
     let mut nontrivial = 0u64;
     let mut per_family: BTreeMap<String, u64> = BTreeMap::new();
@@ -511,6 +698,10 @@ fn main() {
         writeln!(oracle_out, "{}", o).unwrap();
         writeln!(cases_f, "{}", line).unwrap();
         writeln!(fam_f, "{}", c.family()).unwrap();
+        if let Some((key, what)) = property_failure(c, &r) {
+            writeln!(prop_f, "{}\t{}\t{}\t{}", c.family(), key, line, what.replace('\n', " ").replace('\t', " ")).unwrap();
+            hist.add("property-failure");
+        }
         *per_family.entry(c.family().to_string()).or_insert(0) += 1;
         hist.add(&format!("family:{}", c.family()));
         hist.add(if r.starts_with("error") || r == "panic" { "impl:error" } else { "impl:ok" });
@@ -523,6 +714,7 @@ fn main() {
     oracle_out.flush().unwrap();
     cases_f.flush().unwrap();
     fam_f.flush().unwrap();
+    prop_f.flush().unwrap();
     gvh::out::write_json(
         &args.out.join("stats.json"),
         &serde_json::json!({
